@@ -500,4 +500,84 @@ theorem clz_bitLen (x : BitVec 64) : (BitVec.clz x).toNat = 64 - Marshal.bitLen 
     omega
 
 
+/-! ### The whole `encVint` (descending store loop): for each of the ten possible byte counts the loop unfolds to an
+  explicit list, compared entry by entry with the model's `lowBytes` -/
+
+set_option linter.unusedVariables false
+
+theorem numBytes_of_lead0 : ∀ l, l ≤ 64 →
+    BitVec.sshiftRight (0x27f#64 - (BitVec.ofNat 64 l * 0x9#64)) 6 = BitVec.ofNat 64 ((639 - l * 9) >>> 6) := by
+  decide
+
+theorem byteNat_bv (x : BitVec 64) : ValueSpec.byteOfNat x.toNat = UInt8.ofBitVec (x.setWidth 8) := by
+  unfold ValueSpec.byteOfNat
+  apply UInt8.toBitVec_inj.mp
+  apply BitVec.eq_of_toNat_eq
+  simp
+
+theorem div256_bv (x : BitVec 64) : x.toNat / 256 = (x >>> 8).toNat := by
+  rw [BitVec.toNat_ushiftRight, Nat.shiftRight_eq_div_pow]
+
+/-- the part of the generated `encVint` after `numBytes` has been computed -/
+def encVintBody (vEnc numBytes : BitVec 64) : List (BitVec 8) :=
+  if (BitVec.sle numBytes 0x1#64) then
+    [(vEnc.setWidth 8)]
+  else
+    let extraBytes := (numBytes - 0x1#64)
+    let buf : List (BitVec 8) := (List.replicate (numBytes).toNat 0#8)
+    let (buf, vEnc) := Gen.Marshal.encVint_loop1  ((extraBytes - 0x0#64).toNat + 1) extraBytes buf vEnc
+    let buf := buf.set 0 ((buf.getD 0 0#8) ||| (~~~(0xff#8 >>> (extraBytes).toNat)))
+    buf
+
+def encVintModelBody (vEnc numBytes : Nat) : List UInt8 :=
+  if numBytes ≤ 1 then [ValueSpec.byteOfNat vEnc]
+  else
+    let extraBytes := numBytes - 1
+    match lowBytes extraBytes vEnc with
+    | b0 :: r => (b0 ||| UInt8.ofNat (255 - (255 >>> extraBytes))) :: r
+    | [] => []
+
+theorem ofBitVec_or (a b : BitVec 8) : UInt8.ofBitVec (a ||| b) = UInt8.ofBitVec a ||| UInt8.ofBitVec b := rfl
+
+theorem encVintBody_eq (u : BitVec 64) (k : Nat) (hk : k ≤ 9) :
+    (encVintBody u (BitVec.ofNat 64 k)).map UInt8.ofBitVec = encVintModelBody u.toNat k := by
+  obtain rfl | rfl | rfl | rfl | rfl | rfl | rfl | rfl | rfl | rfl :
+    k = 0 ∨ k = 1 ∨ k = 2 ∨ k = 3 ∨ k = 4 ∨ k = 5 ∨ k = 6 ∨ k = 7 ∨ k = 8 ∨ k = 9 := by omega
+  all_goals
+    simp [encVintBody, encVintModelBody, Gen.Marshal.encVint_loop1, lowBytes]
+  all_goals repeat' apply And.intro
+  all_goals first | (apply congrArg (· ||| _)) | skip
+  all_goals
+    unfold ValueSpec.byteOfNat
+    apply UInt8.toBitVec_inj.mp
+    apply BitVec.eq_of_toNat_eq
+    simp [Nat.shiftRight_eq_div_pow]
+    try omega
+
+
+theorem encVint_all (n : Int) :
+    (Gen.Marshal.encVint (BitVec.ofInt 64 n)).map UInt8.ofBitVec = Marshal.encVint n := by
+  have hg : Gen.Marshal.encVint (BitVec.ofInt 64 n)
+      = encVintBody (Gen.Marshal.encIntZigZag (BitVec.ofInt 64 n))
+          (BitVec.sshiftRight (0x27f#64 - (((BitVec.clz (Gen.Marshal.encIntZigZag (BitVec.ofInt 64 n))).setWidth 64) * 0x9#64)) 6) := rfl
+  have hm : Marshal.encVint n
+      = encVintModelBody (Marshal.encIntZigZag n) ((639 - Marshal.leadingZeros64 (Marshal.encIntZigZag n) * 9) >>> 6) := rfl
+  rw [hg, hm, ← GenTie.C12.encIntZigZag n]
+  generalize Gen.Marshal.encIntZigZag (BitVec.ofInt 64 n) = u
+  have hl := clz_bitLen u
+  have hc : (BitVec.clz u).setWidth 64 = BitVec.ofNat 64 (64 - Marshal.bitLen u.toNat) := by
+    apply BitVec.eq_of_toNat_eq
+    simp only [BitVec.setWidth_eq, hl, BitVec.toNat_ofNat]
+    omega
+  unfold Marshal.leadingZeros64
+  rw [hc, numBytes_of_lead0 _ (by omega)]
+  apply encVintBody_eq
+  rw [Nat.shiftRight_eq_div_pow]
+  omega
+
+/-- `encVint(v int64)` (zig-zag, `bits.LeadingZeros64`, byte count, the descending store loop, the length prefix bits)
+    equals the model's `Marshal.encVint` for every int64 -/
+theorem encVint (n : Int) (hn : -(2:Int)^63 ≤ n ∧ n < (2:Int)^63) :
+    (Gen.Marshal.encVint (BitVec.ofInt 64 n)).map UInt8.ofBitVec = Marshal.encVint n := encVint_all n
+
 end GenTie.C12
